@@ -39,6 +39,17 @@
                                    permutation
      hinted_insert_is_plain_insert the position hint changes nothing of what happens to instances
      find_refines_spec             find returns the first element with that key / value
+   Round 5 - two more operations, covered by every theorem above:
+     OInsVia   List::prepend / append(value), HashMap::prepend / append(key, value), HashSet::prepend /
+               append(key), PoolMap::append(key): the one-line wrappers, arguments may be own elements
+               (wrappers_are_front_back_insert: the same computation as the positional insert)
+     OInsTie   the one MultiMap hinted insert that OInsHint leaves out (hint_tie): the offset at which the
+               new element lands inside the following run of equal keys is an INPUT (it stands for the
+               tree shape, C01); the spec accepts exactly the offsets that keep the keys in order
+               (tie_insert_position_only: for every offset the same events / instances / allocations as
+               insert(key, value), only the place of the new node differs)
+     stored_instances_counted      live instances = one per stored element and key (the number the spec
+                                   oracle prints) + what the containers keep for themselves (end items)
    All theorems are about the Model (LifeModel.v); its tie to the C++ code is the
    correspondence check (checks/C04.py).  Memory below the model's allocations (the allocator
    itself) is observed by ASan/the ledger of the harness only. *)
@@ -162,6 +173,31 @@ Theorem hinted_insert_is_plain_insert : forall (nv : nat) (ops : list op) (st : 
   nc_insert_hint n p kr vr (sw st) = nc_insert n PBack kr (VRef vr) (sw st).
 Proof. exact hinted_insert_is_plain_proof. Qed.
 Print Assumptions hinted_insert_is_plain_insert.
+
+(* The one MultiMap call excluded above (key of the hinted item <= key, key of the item behind it ==
+   key; operation OInsTie, the landing offset j being an input that stands for the tree shape): in
+   every reachable state and for EVERY j, it does to the world exactly what insert(key, value) does -
+   same events in the same order, same instances and allocations afterwards (the same w1) - and the two
+   resulting containers differ only in the place (i1 / i2) of the one new node in the item sequence. *)
+Theorem tie_insert_position_only : forall (nv : nat) (ops : list op) (st : state) (x : nat) (n : nc) (p : pos) (kr vr j : nat)
+                                          (c1 : nc) (w1 : world),
+  run (init nv) ops = Ok st -> getv (svars st) x = Some (CN n) -> sorted (ckind n) = true -> unique (ckind n) = false ->
+  In kr (dom (heap (sw st))) ->
+  nc_insert_tie n p kr vr j (sw st) = Ok (c1, w1) ->
+  exists c0 nd i1 i2,
+    c1 = set_items c0 (insert_at i1 nd (citems c0)) (cfree c0) /\
+    nc_insert n PBack kr (VRef vr) (sw st) = Ok (set_items c0 (insert_at i2 nd (citems c0)) (cfree c0), w1).
+Proof. exact tie_insert_position_only_proof. Qed.
+Print Assumptions tie_insert_position_only.
+
+(* prepend / append(key[, value]) of List / HashMap / HashSet and PoolMap::append(key) (OInsVia) are the
+   positional insert at the front / the back - the same computation on every state. *)
+Theorem wrappers_are_front_back_insert : forall (st : state) (x : nat) (n : nc) (f : bool) (ka va : arg),
+  getv (svars st) x = Some (CN n) -> can_insvia (ckind n) f = true ->
+  step st (OInsVia x f ka va) = step st (OIns x (via_pos f) ka va) /\
+  spec_step (abs st) (OInsVia x f ka va) = spec_step (abs st) (OIns x (via_pos f) ka va).
+Proof. exact insvia_is_ins_proof. Qed.
+Print Assumptions wrappers_are_front_back_insert.
 
 (* find returns what the spec says: the index of the first element with that key / value. *)
 Theorem find_refines_spec : forall (nv : nat) (ops : list op) (st : state) (x : nat) (ka : arg),
@@ -325,4 +361,56 @@ Example alias_nonvacuous3 :
                            ONew 1 KMap; OIns 1 PBack (AVal 2) (AVal 7); OInsHint 1 PFront (AKey 1 0) (AValOf 1 0); OFind 1 (AKey 1 0)]
   = [ONew 0 KPoolList; OEmplace 0 [AVal 4]; OEmplace 0 [AVal 4; AVal 1; AVal 4];
      ONew 1 KMap; OIns 1 PBack (AVal 2) (AVal 7); OInsHint 1 PFront (AVal 2) (AVal 7); OFind 1 (AVal 2)]%Z.
+Proof. vm_compute. reflexivity. Qed.
+
+(* ---- round 5 ---- *)
+(* the wrappers with the container's own key / value as arguments, and their de-aliased form *)
+Definition example_history5 : list op :=
+  [ONew 0 KHashMap; OInsVia 0 true (AVal 1) (AVal 10); OInsVia 0 false (AVal 501) (AVal 20); OInsVia 0 true (AKey 0 1) (AValOf 0 0);
+   OInsVia 0 true (AVal 7) (AValOf 0 1);
+   ONew 1 KList; OInsVia 1 false (AVal 0) (AVal 4); OInsVia 1 true (AVal 0) (AValOf 1 0); OInsVia 1 false (AVal 0) (AValOf 1 1);
+   ONew 2 KPoolMap; OInsVia 2 false (AVal 3) (AVal 0); OInsVia 2 true (AVal 4) (AVal 0); OInsVia 2 false (AKey 2 0) (AVal 0);
+   ODel 2; ONew 2 KHashSet; OInsVia 2 true (AVal 2) (AVal 0); OInsVia 2 true (AVal 502) (AVal 0); OInsVia 2 false (AKey 2 1) (AVal 0);
+   ODel 1; ONew 1 KMap; OInsVia 1 true (AVal 1) (AVal 1)].
+
+Example wrappers_nonvacuous :
+  match run (init 3) example_history5 with
+  | Ok st => match finish st with
+             | Ok st' => well_bracketed (log (sw st')) && Nat.ltb 60 (length (log (sw st')))
+             | Err _ => false
+             end
+  | Err _ => false
+  end = true /\
+  spec_run (sinit 3) example_history5 =
+  [Some (KHashMap, [(Some 7, Some 10); (Some 1, Some 10); (Some 501, Some 10)]);
+   Some (KMap, []);
+   Some (KHashSet, [(Some 502, None); (Some 2, None)])]%Z /\
+  dealias_run (sinit 3) 2 [ONew 0 KHashMap; OInsVia 0 true (AVal 1) (AVal 10); OInsVia 0 true (AKey 0 0) (AValOf 0 0)]
+  = [ONew 0 KHashMap; OInsVia 0 true (AVal 1) (AVal 10); OInsVia 0 true (AVal 1) (AVal 10)]%Z.
+Proof. split; [|split]; vm_compute; reflexivity. Qed.
+
+(* the MultiMap tie case: hint = the item with key 3, new key 5, the run 5 5 follows.  Offsets 0, 1, 2 are
+   accepted (three different contents, all in key order, each with the 4 events of a plain insertion with
+   temporaries: 2 constructions of the temporaries aside, 2 copies), offset 3 (behind the 7) is not; and
+   the same call is not an OInsHint. *)
+Example tie_nonvacuous :
+  match run (init 1) [ONew 0 KMultiMap; OIns 0 PBack (AVal 3) (AVal 1); OIns 0 PBack (AVal 5) (AVal 2); OIns 0 PBack (AVal 5) (AVal 3);
+                      OIns 0 PBack (AVal 7) (AVal 4)] with
+  | Ok st =>
+      match step st (OInsTie 0 (PAt 0) (AVal 5) (AVal 9) 0), step st (OInsTie 0 (PAt 0) (AVal 5) (AVal 9) 1),
+            step st (OInsTie 0 (PAt 0) (AVal 5) (AVal 9) 2), step st (OInsTie 0 (PAt 0) (AVal 5) (AVal 9) 3),
+            step st (OInsHint 0 (PAt 0) (AVal 5) (AVal 9)), step st (OIns 0 PBack (AVal 5) (AVal 9)) with
+      | Ok (true, s0), Ok (true, s1), Ok (true, s2), Ok (false, _), Ok (false, _), Ok (true, sp) =>
+          match sget (abs s0) 0, sget (abs s1) 0, sget (abs s2) 0, sget (abs sp) 0 with
+          | Some (KMultiMap, [(Some 3, Some 1); (Some 5, Some 9); (Some 5, Some 2); (Some 5, Some 3); (Some 7, Some 4)]%Z),
+            Some (KMultiMap, [(Some 3, Some 1); (Some 5, Some 2); (Some 5, Some 9); (Some 5, Some 3); (Some 7, Some 4)]%Z),
+            Some (KMultiMap, [(Some 3, Some 1); (Some 5, Some 2); (Some 5, Some 3); (Some 5, Some 9); (Some 7, Some 4)]%Z),
+            Some (KMultiMap, [(Some 3, Some 1); (Some 5, Some 2); (Some 5, Some 3); (Some 5, Some 9); (Some 7, Some 4)]%Z) =>
+              Nat.eqb (length (log (sw s1))) (length (log (sw sp))) && Nat.eqb (length (heap (sw s0))) (length (heap (sw sp)))
+          | _, _, _, _ => false
+          end
+      | _, _, _, _, _, _ => false
+      end
+  | Err _ => false
+  end = true.
 Proof. vm_compute. reflexivity. Qed.
